@@ -1,23 +1,23 @@
 #!/bin/sh
-# Run every seeded change against its own property's quick check (two scratch worktrees in parallel):
-#   tools/seedall.sh [outfile]
+# Run seeded changes against their own property's quick check (three scratch worktrees in parallel):
+#   tools/seedall.sh [outfile] [glob of seed dir names, default C*]
 # Each line of the result: CAUGHT / MISSED / INCONCLUSIVE / PATCH-DOES-NOT-APPLY <property> <seed dir>
 V=$(cd "$(dirname "$0")/.." && pwd)
 OUT=${1:-/tmp/seedall.log}
+PAT=${2:-C*}
 : > "$OUT"
-ls -d "$V"/seeded/C*/ | sort > /tmp/seedall.list
-split -n l/2 /tmp/seedall.list /tmp/seedall.part.
+ls -d "$V"/seeded/$PAT/ | sort > /tmp/seedall.list
+split -n l/3 /tmp/seedall.list /tmp/seedall.part.
 i=0
 for part in /tmp/seedall.part.*; do
-  i=$((i+1))
   ( while read d; do
       p=$(basename "$d" | cut -c1-3)
       extra=""
       # seeds that belong to a neighbouring property's check as well
-      case "$(basename "$d")" in C19-2-*) extra="C15";; C02-3-*) extra="C05";; esac
-      W=/tmp/seedtest; [ "$i" = 2 ] && W=/tmp/seedtest2
-      SEEDTEST_WORKTREE=$W "$V/tools/seedtest.sh" "$d" $p $extra
+      case "$(basename "$d")" in C19-2-*|C19-6-*) extra="C15";; C02-5-*) extra="C01";; esac
+      SEEDTEST_WORKTREE=/tmp/seedtest$i "$V/tools/seedtest.sh" "$d" $p $extra
     done < "$part" ) >> "$OUT" 2>&1 &
+  i=$((i+1))
 done
 wait
 sort -k3 "$OUT" -o "$OUT"
